@@ -370,6 +370,17 @@ func (e *Engine) verifyFunc2(fn *ssa.Function, opts *fnOpts, cfg *solverCfg, sol
 			}
 		}
 		res.rounds++
+		if os.Getenv("GOVC_DEBUG") != "" {
+			alive := 0
+			for _, cs := range st.cands {
+				for _, cd := range cs {
+					if cd.alive {
+						alive++
+					}
+				}
+			}
+			fmt.Fprintf(os.Stderr, "houdini %s round %d: %d checks, killed %d, alive %d\n", res.key, round, len(c.houdiniObs), killed, alive)
+		}
 		if killed == 0 || round > 12 {
 			if killed > 0 {
 				// give up on all remaining candidates of this function
